@@ -471,9 +471,13 @@ fn main() {
             let mut o = Out::new(&out);
             let mut r = Rng::new(seed);
             let s = if thorough { 10 } else { 3 };
+            // plans with 400 / 1000-bit entries: the extracted model (binary positives, LLL preprocessing) needs
+            // 5 .. 20 s per case there, so their number is kept small and independent of `s`
+            let h = if thorough { 3 } else { 1 };
             let small: &[u64] = &[0, 1, 1, 2, 3, 3, 4, 5, 5];
             let tiny: &[u64] = &[1, 1, 3, 5];
             let bigk: &[u64] = &[6, 7, 3];
+            let hugek: &[u64] = &[6, 7];
             let plans = vec![
                 // no LLL preprocessing in the implementation: the model is exact from eliminate_all on
                 Plan { ring: "i32", fam: Fam::Int, count: 500 * s, maxdim: 6, kinds: small, bits: 0, rational: false },
@@ -490,17 +494,17 @@ fn main() {
                 Plan { ring: "i64", fam: Fam::Int, count: 250 * s, maxdim: 6, kinds: small, bits: 0, rational: false },
                 Plan { ring: "i128", fam: Fam::Int, count: 150 * s, maxdim: 6, kinds: small, bits: 0, rational: false },
                 Plan { ring: "big", fam: Fam::Int, count: 400 * s, maxdim: 7, kinds: small, bits: 0, rational: false },
-                Plan { ring: "big", fam: Fam::Int, count: 60 * s, maxdim: 4, kinds: bigk, bits: 60, rational: false },
-                Plan { ring: "big", fam: Fam::Int, count: 6 * s, maxdim: 3, kinds: bigk, bits: 400, rational: false },
-                Plan { ring: "big", fam: Fam::Int, count: 3 * s, maxdim: 2, kinds: bigk, bits: 1000, rational: false },
+                Plan { ring: "big", fam: Fam::Int, count: 40 * h, maxdim: 4, kinds: bigk, bits: 60, rational: false },
+                Plan { ring: "big", fam: Fam::Int, count: 4 * h, maxdim: 2, kinds: bigk, bits: 400, rational: false },
+                Plan { ring: "big", fam: Fam::Int, count: h, maxdim: 2, kinds: hugek, bits: 1000, rational: false },
                 Plan { ring: "gi64", fam: Fam::Gauss, count: 120 * s, maxdim: 4, kinds: small, bits: 0, rational: false },
                 Plan { ring: "gbig", fam: Fam::Gauss, count: 200 * s, maxdim: 5, kinds: small, bits: 0, rational: false },
-                Plan { ring: "gbig", fam: Fam::Gauss, count: 20 * s, maxdim: 3, kinds: bigk, bits: 60, rational: false },
-                Plan { ring: "gbig", fam: Fam::Gauss, count: 3 * s, maxdim: 2, kinds: bigk, bits: 400, rational: false },
+                Plan { ring: "gbig", fam: Fam::Gauss, count: 15 * h, maxdim: 3, kinds: bigk, bits: 60, rational: false },
+                Plan { ring: "gbig", fam: Fam::Gauss, count: h, maxdim: 2, kinds: hugek, bits: 400, rational: false },
                 Plan { ring: "ei64", fam: Fam::Eisen, count: 120 * s, maxdim: 4, kinds: small, bits: 0, rational: false },
                 Plan { ring: "ebig", fam: Fam::Eisen, count: 200 * s, maxdim: 5, kinds: small, bits: 0, rational: false },
-                Plan { ring: "ebig", fam: Fam::Eisen, count: 20 * s, maxdim: 3, kinds: bigk, bits: 60, rational: false },
-                Plan { ring: "ebig", fam: Fam::Eisen, count: 3 * s, maxdim: 2, kinds: bigk, bits: 400, rational: false },
+                Plan { ring: "ebig", fam: Fam::Eisen, count: 15 * h, maxdim: 3, kinds: bigk, bits: 60, rational: false },
+                Plan { ring: "ebig", fam: Fam::Eisen, count: h, maxdim: 2, kinds: hugek, bits: 400, rational: false },
             ];
             // (key, seq, case, result): the lines of a plan are spread evenly over the whole case file, so that the
             // few expensive plans (big entries) do not end up in one shard of the model run
@@ -510,7 +514,13 @@ fn main() {
                 for k in 0..p.count {
                     // shapes: every (m, n) in 0..=maxdim is visited systematically, then random
                     let d = p.maxdim + 1;
-                    let (m, n) = if k < d * d { (k / d, k % d) } else { (r.below(d as u64) as usize, r.below(d as u64) as usize) };
+                    let (m, n) = if p.bits >= 400 {
+                        (1 + r.below(p.maxdim as u64) as usize, 1 + r.below(p.maxdim as u64) as usize)
+                    } else if k < d * d {
+                        (k / d, k % d)
+                    } else {
+                        (r.below(d as u64) as usize, r.below(d as u64) as usize)
+                    };
                     let kind = *r.pick(p.kinds);
                     let ents = gen_matrix(&mut r, p.fam, m, n, kind, p.bits);
                     let toks: Vec<String> = ents
@@ -531,6 +541,8 @@ fn main() {
                     let mut subsets: Vec<u64> = vec![15];
                     if k % 4 == 0 && p.bits == 0 {
                         subsets = (0..16).rev().collect();
+                    } else if p.bits >= 400 {
+                        subsets.push(r.below(15));
                     } else {
                         subsets.push(r.below(15));
                         subsets.push(r.below(15));
